@@ -369,6 +369,9 @@ pub enum PathKind {
     AsyncTcp,
     AsyncMem,
     WebSocket,
+    /// WebSocket server with an outbound queue of 1 whose peer reads nothing until every
+    /// request of the pipeline was sent (responses pile up behind a full queue)
+    WebSocketTight,
 }
 
 impl PathKind {
@@ -378,6 +381,7 @@ impl PathKind {
             PathKind::AsyncTcp => "async-tcp",
             PathKind::AsyncMem => "async-mem",
             PathKind::WebSocket => "websocket",
+            PathKind::WebSocketTight => "websocket-outbound-capacity-1",
         }
     }
 }
@@ -426,6 +430,13 @@ impl Endpoint {
                     let _ = repe::AsyncServer::new(router).serve(listener).await;
                 });
                 ep.mem_tx = Some(tx);
+                ep.rt = Some(rt);
+            }
+            PathKind::WebSocketTight => {
+                // multi-threaded on purpose: this row adds detection power for orderings that
+                // only differ when runtime workers race (it is labelled non-deciding)
+                let rt = tokio::runtime::Builder::new_multi_thread().worker_threads(4).enable_time().build().unwrap();
+                ep.shared = Some(repe::WebSocketServer::new(router).with_offreader_limit(0).with_outbound_capacity(1).into_shared());
                 ep.rt = Some(rt);
             }
             PathKind::WebSocket => {
@@ -478,13 +489,36 @@ impl Endpoint {
                     Ok(fr)
                 })
             }
-            PathKind::WebSocket => {
+            PathKind::WebSocket | PathKind::WebSocketTight => {
                 let rt = self.rt.as_ref().unwrap();
                 let shared = self.shared.as_ref().unwrap();
+                let tight = self.kind == PathKind::WebSocketTight;
                 rt.block_on(async {
                     let mut c = wsh::connect(shared, Serve::Plain, None).await;
-                    for f in frames_out {
-                        c.send_frame(f).await?;
+                    if tight {
+                        // the peer accepts nothing from the server while it sends the first half
+                        // of its requests, then lets the responses trickle out while it sends the rest
+                        c.ctl.a_to_b.set_credit(Some(0));
+                        let half = frames_out.len() / 2;
+                        for f in &frames_out[..half] {
+                            c.send_frame(f).await?;
+                        }
+                        for _ in 0..50 {
+                            tokio::task::yield_now().await;
+                        }
+                        for f in &frames_out[half..] {
+                            c.ctl.a_to_b.grant(96);
+                            tokio::task::yield_now().await;
+                            c.send_frame(f).await?;
+                        }
+                        for _ in 0..50 {
+                            tokio::task::yield_now().await;
+                        }
+                        c.ctl.a_to_b.set_credit(None);
+                    } else {
+                        for f in frames_out {
+                            c.send_frame(f).await?;
+                        }
                     }
                     let mut got = Vec::new();
                     // wait for the predicted number of responses (off-reader handlers
@@ -620,7 +654,7 @@ pub fn check_pipeline(ep: &Endpoint, letters: &[&Letter], tally: &mut Tally, ref
         bad.push(("C03:unsolicited-response".into(), format!("{ctx}: {} frame(s) with id {id} that no request used", rs.len())));
     }
     // arrival order for requests handled inline on the connection
-    let inline_expected: Vec<u64> = letters.iter().enumerate().filter(|(_, l)| !l.notify && !(ep.kind == PathKind::WebSocket && l.off_reader)).map(|(i, _)| 1000 + i as u64).collect();
+    let inline_expected: Vec<u64> = letters.iter().enumerate().filter(|(_, l)| !l.notify && !(matches!(ep.kind, PathKind::WebSocket | PathKind::WebSocketTight) && l.off_reader)).map(|(i, _)| 1000 + i as u64).collect();
     let inline_got: Vec<u64> = got.iter().map(|f| f.h.id).filter(|id| inline_expected.contains(id)).collect();
     if inline_got != inline_expected && inline_got.len() == inline_expected.len() {
         bad.push(("C03:inline-order".into(), format!("{ctx}: inline responses arrived as {inline_got:?}, requests were sent as {inline_expected:?}")));
@@ -634,7 +668,7 @@ pub fn run(tier: Tier) -> ! {
     let ctx = Ctx::new("C03", tier);
     let alpha = alphabet();
     let n = alpha.len();
-    let kinds = [PathKind::BlockingTcp, PathKind::AsyncTcp, PathKind::AsyncMem, PathKind::WebSocket];
+    let kinds = [PathKind::BlockingTcp, PathKind::AsyncTcp, PathKind::AsyncMem, PathKind::WebSocket, PathKind::WebSocketTight];
     // pipelines: singles, ordered pairs, then (thorough) triples over a sub-alphabet and long pipelines
     let mut pipelines: Vec<Vec<usize>> = Vec::new();
     for i in 0..n {
@@ -772,6 +806,7 @@ pub fn run(tier: Tier) -> ! {
         "letters": n,
         "bound": {"singles": n, "ordered_pairs": n * n, "triples_over": tri.len(), "repeat_64": n, "pair_around_62_echoes": if tier == Tier::Thorough { sub.len() * sub.len() } else { 0 }},
         "dispatch_paths": per_path,
+        "non_deciding_rows": ["websocket-outbound-capacity-1: same pipelines on a 4-worker runtime with a 1-slot outbound queue and a trickling peer; the schedules of the runtime workers are whatever occurs (not enumerated), so this row only adds detection (any reordering it sees is a real violation: the reader queues responses sequentially)"],
         "nonvacuity": {"responses_by_error_code": total.by_class, "pipelines_with_2plus_responses": total.multi_inflight, "responses": total.responses, "requests": total.requests},
         "rule": "every pipeline (all letters, all ordered pairs, triples over a sub-alphabet, each letter x64, pairs around 62 echoes) is written in one burst on a fresh connection of each dispatch path (blocking TCP, async TCP, async over memstream, WebSocket with inline and off-reader routes); all frames received until the server closes are matched by id against the model; handler and middleware invocation counters are compared per pipeline",
     });
@@ -792,6 +827,7 @@ pub fn replay(case: &Value) -> Result<(), String> {
         "blocking-tcp" => PathKind::BlockingTcp,
         "async-tcp" => PathKind::AsyncTcp,
         "async-mem" => PathKind::AsyncMem,
+        "websocket-outbound-capacity-1" => PathKind::WebSocketTight,
         _ => PathKind::WebSocket,
     };
     let p: Vec<usize> = case["pipeline"].as_array().ok_or("pipeline")?.iter().map(|v| v.as_u64().unwrap_or(0) as usize).collect();
